@@ -499,6 +499,58 @@ theorem atrf_mutual_inverse_1980_2060 (x y z : ℝ) (d : Int × Int × Int) (vcv
   have e : (4 : ℝ) * (3 / 10 ^ 7) ^ 2 * 6400000 ≤ 2.4 / 10 ^ 6 := by norm_num
   exact ⟨X, Y, Z, v, x', y', z', v', a, b, c1.trans e, c2.trans e, c3.trans e⟩
 
+/-! ## Catalogue-wide: every shipped parameter has at most 8 decimals -/
+
+theorem dec8_pround8 (v : ℝ) : Dec8 (pround 8 v) := ⟨roundHalfEven (v * 10 ^ 8), rfl⟩
+theorem dec8_natCast (n : ℕ) : Dec8 (n : ℝ) := ⟨(n * 10 ^ 8 : ℕ), by push_cast; field_simp⟩
+theorem dec8_ofNat (n : ℕ) [n.AtLeastTwo] : Dec8 (OfNat.ofNat n : ℝ) := dec8_natCast n
+theorem dec8_one : Dec8 (1 : ℝ) := by simpa using dec8_natCast 1
+
+theorem params8_init (f t : String) (r : Option (Int × Int × Int))
+    (tx ty tz sc rx ry rz d1 d2 d3 d4 d5 d6 d7 : ℝ) (sd : Option TransformationSD)
+    (h : Dec8 tx ∧ Dec8 ty ∧ Dec8 tz ∧ Dec8 sc ∧ Dec8 rx ∧ Dec8 ry ∧ Dec8 rz) :
+    Params8 (Transformation.init f t r tx ty tz sc rx ry rz d1 d2 d3 d4 d5 d6 d7 sd) := h
+
+theorem params8_iers (f t : String) (r : Option (Int × Int × Int))
+    (tx ty tz sc rx ry rz d1 d2 d3 d4 d5 d6 d7 : ℝ) :
+    Params8 (iers2trans f t r tx ty tz sc rx ry rz d1 d2 d3 d4 d5 d6 d7) :=
+  ⟨dec8_pround8 _, dec8_pround8 _, dec8_pround8 _, dec8_pround8 _, dec8_pround8 _, dec8_pround8 _,
+    dec8_pround8 _⟩
+
+/-- `Dec8` of a literal, syntactically -/
+macro "dec8_leaf" : tactic =>
+  `(tactic| with_reducible (repeat (first
+      | exact dec8_pround8 _
+      | exact dec8_dec _ _ (by norm_num)
+      | apply dec8_neg
+      | exact dec8_zero
+      | exact dec8_one
+      | exact dec8_ofNat _)))
+
+/-- `Params8 c` for a catalogue constant `c`: unfold `c` one definition at a time until it is an
+`iers2trans …`, a `Transformation.neg …` or a `Transformation.init …` -/
+syntax "params8_tac" : tactic
+macro_rules
+  | `(tactic| params8_tac) => `(tactic| first
+      | (with_reducible exact params8_iers _ _ _ _ _ _ _ _ _ _ _ _ _ _ _ _ _)
+      | (with_reducible apply params8_neg; params8_tac)
+      | (with_reducible apply params8_init; refine ⟨?_, ?_, ?_, ?_, ?_, ?_, ?_⟩ <;> dec8_leaf)
+      | (unfold_arg; params8_tac))
+
+/-- **C07.3c** every one of the shipped parameter sets has parameters with at most 8 decimals, so
+`conform14` at the set's own reference epoch is `conform7` with the set -/
+theorem catalogue_params8 : ∀ e ∈ catalogue_Transformation, Params8 e.2 := by
+  intro e he
+  simp only [catalogue_Transformation, List.mem_cons, List.not_mem_nil, or_false] at he
+  repeat (rcases he with rfl | he; · show Params8 _; params8_tac)
+  subst he
+  show Params8 _; params8_tac
+
+theorem catalogue_at_reference_epoch (x y z : ℝ) :
+    ∀ e ∈ catalogue_Transformation, ∀ d, e.2.ref_epoch = some d →
+      conform14 x y z d e.2 none = conform7 x y z e.2 none :=
+  fun e he d hd => conform14_at_ref x y z e.2 d hd (catalogue_params8 e he)
+
 end
 
 end GeodeVerif.C07
